@@ -871,7 +871,7 @@ def c03_rates(G, H, J, status):
     return out
 
 
-def c03_native():
+def c03_native(parts=('a', 'b', 'c')):
     import EoN
     import EoN.simulation as sim_mod
     n = 0
@@ -906,7 +906,7 @@ def c03_native():
                     status = dict(IC)
                     events = sorted(((float(tt), u) for u in Gx for tt in sim.node_history(u)[0][1:]))
                     k = 0
-                    if True:
+                    if 'a' in parts:
                         rates = c03_rates(Gx, H, J, status)
                         for step, rate_used in enumerate(src.rates):
                             total = sum(rates.values())
@@ -933,6 +933,8 @@ def c03_native():
                         if sum(rates.values()) > 0 and len(src.rates) * 0.125 < 3.0 and False:
                             pass
                     # ---- (b) first event: over a grid of uniform draws, each transition TYPE is selected with its rate share
+                    if 'b' not in parts:
+                        continue
                     rates0 = c03_rates(Gx, H, J, IC)
                     total0 = sum(rates0.values())
                     if total0 <= 0:
@@ -966,6 +968,50 @@ def c03_native():
                         if abs(got.get(typ, 0) / grid - p) > 2.0 / grid + 1e-9:
                             wit['observed'] = 'first event: transition %s selected for a fraction %.4f of the uniform draws, its rate share is %.4f' % (typ, got.get(typ, 0) / grid, p)
                             return n, wit
+            # ---- (c) same scripted draws, other ways of asking: plain arrays with a SUBSET of the statuses reported, tmin != 0, the initial
+            # condition as a defaultdict with missing keys, the legacy wrapper Gillespie_Arbitrary: all describe the same run
+            from collections import defaultdict as _dd
+            for sname, H, J, statuses in (c03_specs()[:5] if 'c' in parts else []):
+                IC = {u: rng.choice(statuses) for u in Gx}
+                base = statuses[0]
+                ICd = _dd(lambda base=base: base)
+                for u, st in IC.items():
+                    if st != base:
+                        ICd[u] = st
+                keys_before = set(ICd)
+                n += 1
+                wit = dict(graph=gname, edges=list(Gx.edges()), model=sname, IC=dict(IC), tmin=1.5, tmax=3.5)
+                runs = {}
+                try:
+                    for label, call in (('full', lambda: EoN.Gillespie_simple_contagion(Gx, H, J, dict(IC), statuses, tmin=1.5, tmax=3.5, return_full_data=True)),
+                                        ('plain-subset', lambda: EoN.Gillespie_simple_contagion(Gx, H, J, dict(IC), statuses[:-1], tmin=1.5, tmax=3.5)),
+                                        ('plain-defaultdict', lambda: EoN.Gillespie_simple_contagion(Gx, H, J, ICd, statuses, tmin=1.5, tmax=3.5)),
+                                        ('legacy-wrapper', lambda: EoN.Gillespie_Arbitrary(Gx, H, J, dict(IC), statuses, tmin=1.5, tmax=3.5))):
+                        sim_mod.random = ScriptedRandom(77)
+                        try:
+                            runs[label] = call()
+                        finally:
+                            sim_mod.random = old
+                except Exception as e:
+                    wit['observed'] = '%s: %s' % (type(e).__name__, e)
+                    return n, wit
+                if set(ICd) != keys_before:
+                    wit['observed'] = 'the caller\'s defaultdict initial condition gained keys %s' % sorted(set(ICd) - keys_before)
+                    return n, wit
+                full = runs['full']
+                ft, fD = full.summary()
+                for label in ('plain-subset', 'plain-defaultdict', 'legacy-wrapper'):
+                    arrs = runs[label]
+                    names = statuses[:-1] if label == 'plain-subset' else statuses
+                    if len(arrs) != 1 + len(names) or float(arrs[0][0]) != 1.5:
+                        wit['observed'] = '%s: returned %d arrays starting at time %s' % (label, len(arrs), arrs[0][0] if len(arrs) else None)
+                        return n, wit
+                    for k, st in enumerate(names):
+                        for tt, val in zip(arrs[0], arrs[1 + k]):
+                            want = sum(1 for u in Gx if full.node_status(u, tt) == st)
+                            if int(val) != want:
+                                wit['observed'] = '%s: count of %s at time %s is %s; the full-data run with the same draws has %d nodes in that status' % (label, st, tt, val, want)
+                                return n, wit
     finally:
         sim_mod.random = old
     return n, None
